@@ -164,7 +164,7 @@ def correspondence(ctx):
         ctx.sample({"module": specs[0]["prog"], "ops": specs[0]["ops"][:6]})
 
     # ---- library modules: linearity / twice / states untouched (oracle on the real code) ----------------------
-    per = 3 if ctx.quick else 25
+    per = 12 if ctx.quick else 30
     for fam, gen in zoo.GENERATORS.items():
         for _ in range(per * 4 if fam == "eigensolve_sparse" else per):   # per-mode adjoint solver caches: more cases
             case = gen(ctx.nprng)
